@@ -58,6 +58,8 @@ def for_property(prop, tier):
     out = []
     if prop == 'C18':
         out.append(kani_prime_residue)
+        if tier == 'thorough':
+            out.append(kani_clear_col)
     if prop in BOUNDED:
         out.append(lambda repo, work, tier, seed, prop=prop: bounded_sweep(prop, repo))
     return out
@@ -114,6 +116,55 @@ QUICK = ['p2::from_i64_canonical', 'p3::from_i64_canonical', 'p61::from_i64_cano
          'f2::mul_is_field_op', 'f3::mul_is_field_op', 'f61::mul_is_field_op',
          'f2::inverse_and_div', 'f3::inverse_and_div']
 THOROUGH = QUICK + ['p3::from_i32_canonical', 'p3::add_sub_neg_are_field_ops', 'f61::inverse_and_div']
+
+
+CLEAR_COL = ['clear_col_i64_2x2', 'clear_col_i64_3x2_frame']
+
+
+def kani_clear_col(repo, work, tier, seed):
+    """BOUNDED stand-in (thorough tier) for the ASSUMED contract of <i64 as Entry>::clear_col: Kani on the real function at
+    Matrix<i64, N, M> with entries in -7..=7 (kani/clear_col.rs).  Labelled bounded, never counted among obligations."""
+    res = {'name': 'kani:clear_col (bounded)', 'failures': [], 'undecided': [], 'obligations': 0, 'failed': 0, 'samples': [],
+           'trusted': ['kani 0.68 / CBMC 6.11; unwinding assertions on'],
+           'bounded': [{'stands_in_for': 'the assumed trait contract of <i64 as Entry>::clear_col (zero below the pivot, pivot non-zero, frame)',
+                        'kind': 'bounded stand-in, NOT a proof',
+                        'bound': 'Matrix<i64,2,2> column 0 and Matrix<i64,3,2> column 1, every entry in -7..=7, gcdx loop unwound 8 times with the unwinding assertion on'}]}
+    dst = os.path.join(work, 'kani_cc_repo')
+    try:
+        _copy_repo(repo, dst)
+        with open(os.path.join(dst, 'src/geometry/matrix.rs'), 'a') as f:
+            f.write('\n#[cfg(kani)]\nmod verif_kani_cc {\n' + open(os.path.join(VERIF, 'kani', 'clear_col.rs')).read() + '\n}\n')
+        cmd = ['cargo', 'kani', '-j', '4', '--output-format', 'terse']
+        for n in CLEAR_COL:
+            cmd += ['--harness', 'verif_kani_cc::' + n]
+        env = dict(os.environ, CARGO_NET_OFFLINE='true', CARGO_TARGET_DIR=os.path.join(work, 'kani_cc_target'))
+        res['cmd'] = 'CARGO_NET_OFFLINE=true ' + ' '.join(cmd)
+        try:
+            p = subprocess.run(cmd, cwd=dst, env=env, capture_output=True, text=True, timeout=2400)
+        except subprocess.TimeoutExpired:
+            res['bounded'][0]['result'] = 'kani timed out: no verdict'
+            return res
+        out = p.stdout + p.stderr
+        m = re.search(r'Complete - (\d+) successfully verified harnesses, (\d+) failures, (\d+) total', out)
+        if not m:
+            res['bounded'][0]['result'] = 'no verdict: ' + out[-200:]
+            return res
+        res['bounded'][0]['result'] = '%s of %s harnesses verified' % (m.group(1), m.group(3))
+        if int(m.group(2)) > 0:
+            failed = re.findall(r'Failed Checks: (.*)', out)
+            if failed and all('unwinding' in c for c in failed):
+                res['bounded'][0]['result'] += ' (the rest: unwinding bound too small, no verdict)'
+                return res
+            res['failures'].append({'unit': 'bounded', 'function': 'i64_clear_col', 'kind': 'bounded', 'backend': 'kani/cbmc (bounded stand-in)',
+                                    'message': '; '.join(failed[:4]), 'site': 'Matrix<i64, N, M> with entries in -7..=7', 'props': ['C18'],
+                                    'rendered': out[-1500:],
+                                    'counterexample': {'source': 'kani/clear_col.rs on the real crate', 'function': '<i64 as Entry>::clear_col',
+                                                       'input': 'some matrix with entries in -7..=7 (see the harness)', 'observed': '; '.join(failed[:4]),
+                                                       'cmd': res['cmd']}})
+    finally:
+        shutil.rmtree(dst, ignore_errors=True)
+        shutil.rmtree(os.path.join(work, 'kani_cc_target'), ignore_errors=True)
+    return res
 
 
 def parse_kani_output(out):
